@@ -1,11 +1,11 @@
 SPECIFICATION Spec
 CONSTANTS
   N = 1
-  MaxTime = 13
+  MaxTime = 11
   MaxSkew = 1
-  Budget = 1
+  Budget = 0
   Variant = "f2ignore"
-  Faults <- WriteFaults
+  Faults <- SaveFault
   MaxToggle = 3
   Removal = TRUE
   Remotes <- RemotesNone
@@ -22,5 +22,5 @@ CONSTANTS
   MaxMods = 0
   Edge = FALSE
 VIEW View
-INVARIANTS TypeOK InvExclusion InvHolderHasFile InvNotStale InvFresh
+INVARIANTS TypeOK InvHolderHasFile InvFresh InvNoWriteAfterCancel
 CHECK_DEADLOCK FALSE
